@@ -712,6 +712,6 @@ def _check(oc, prop, tier, seed, replay, workdir):
                               "design_model_runs": model_runs,
                               "library_statics_behind_guards": guards_lib,
                               "guards_seen_flipping_in_first_call": flipped,
-                              "exhaustive": "ConstOps runs are exhaustive for their constants (all interleavings); runs on real threads are samples",
+                              "exhaustive_note": "ConstOps runs are exhaustive for their constants (all interleavings); runs on real threads are samples",
                               "checker_cmd": "java tlc2.TLC -config ConstOps_*.cfg ConstOps.tla ; java tlc2.TLC -config TraceConc.cfg TraceConc.tla (one process per harness part)"})
     return rc
